@@ -88,6 +88,10 @@ pub struct CkCase {
     pub pre: Vec<(u8, Vec<W>, Vec<W>)>,
     /// unknown contract => error
     pub strict: bool,
+    /// the state answers a read of an unknown contract with NO values (a short answer) instead
+    /// of `n` empty ones
+    #[serde(default)]
+    pub short: bool,
     pub collect_all: bool,
 }
 
@@ -430,6 +434,7 @@ pub type Rec = (u8, Vec<W>, usize);
 pub struct RecState {
     pub map: Arc<crate::util::StateMap>,
     pub strict: bool,
+    pub short: bool,
     pub log: Arc<Mutex<Vec<Rec>>>,
 }
 
@@ -437,6 +442,9 @@ impl StateRead for RecState {
     type Error = String;
     fn key_range(&self, c: ContentAddress, key: Vec<W>, n: usize) -> Result<Vec<Vec<W>>, String> {
         self.log.lock().unwrap().push((c.0[0], key.clone(), n));
+        if self.short && !self.map.keys().any(|(k, _)| *k == c.0) {
+            return Ok(vec![]);
+        }
         crate::util::map_key_range(&self.map, self.strict, c.0, &key, n)
     }
 }
@@ -549,7 +557,7 @@ pub struct RealRun {
 /// The two-pass entry point.
 pub fn run_two_pass(case: &CkCase, b: &Built) -> RealRun {
     let log = Arc::new(Mutex::new(vec![]));
-    let state = RecState { map: Arc::new(b.pre.clone()), strict: case.strict, log: log.clone() };
+    let state = RecState { map: Arc::new(b.pre.clone()), strict: case.strict, short: case.short, log: log.clone() };
     let cfg = Arc::new(CheckPredicateConfig { collect_all_failures: case.collect_all });
     let r = crate::fw::catch(|| {
         sol::check_and_compute_solution_set_two_pass(&state, b.set.clone(), b.get_pred.clone(), b.programs.clone(), cfg)
@@ -593,7 +601,7 @@ pub fn run_modes(
     let cfg = Arc::new(CheckPredicateConfig { collect_all_failures: case.collect_all });
     let mut cache = HashMap::new();
     let log = Arc::new(Mutex::new(vec![]));
-    let pre = RecState { map: Arc::new(b.pre.clone()), strict: case.strict, log: log.clone() };
+    let pre = RecState { map: Arc::new(b.pre.clone()), strict: case.strict, short: case.short, log: log.clone() };
     let empty = OverlayState { pre: pre.clone(), overlay: Arc::new(BTreeMap::new()) };
     let set = Arc::new(b.set.clone());
     let r1 = crate::fw::catch(|| {
